@@ -2382,3 +2382,127 @@ def rule_internal_layout_writes_tag_key(model: Model, rule_id: str = 'C12-R9') -
                "for variants whose tag field is renamed, excluded or has another output name the written mapping has no key `tag`: "
                "from_data(into_data(x, T), T) raises ConvertError (expected mapping with key ...)")
     return r
+
+
+# ---------------------------------------------------------------------------- C14 / C18: the constructor converts like the data path
+
+
+def rule_constructor_uses_field_converters(model: Model, rule_id: str = 'C14-R12') -> RuleResult:
+    """The data path converts a field with ``field.converter`` if given, else with the converter of the field's type built under the
+    class's handlers (``PaneConverter.__init__``).  ``Cls(x)`` is documented to convert each argument as ``from_data`` would: the checked
+    constructor has to consult the same two things."""
+    r = RuleResult(rule_id, "the checked constructor converts a supplied argument with the field's own converter / the class's handlers, as the "
+                            "data path does", floor=1)
+    init = model.func('pane.classes._make_init.__init__')
+    r.analysed.add(init.qualname)
+    pc = model.func('pane.classes.PaneConverter.__init__')
+    data_path = {'field converter': any(isinstance(x, ast.Attribute) and x.attr == 'converter' for x in ast.walk(pc.node)),
+                 'class handlers': any(isinstance(x, ast.Attribute) and x.attr == 'class_handlers' for x in ast.walk(pc.node))}
+    if not all(data_path.values()):
+        raise AnalysisError(f'PaneConverter.__init__: data path no longer consults {[k for k, v in data_path.items() if not v]}')
+    sites = []
+    for x in walk_no_nested(init.node):
+        if isinstance(x, ast.Assign) and isinstance(x.value, ast.Call) and len(x.targets) == 1 and isinstance(x.targets[0], ast.Name):
+            c = x.value
+            if any(isinstance(a_, ast.Name) and a_.id == x.targets[0].id for a_ in c.args) and \
+                    any(truth and 'checked' in text for (_g, text, truth) in _site_conditions(model, init, c)):
+                sites.append(c)
+    if not sites:
+        raise AnalysisError('_make_init.__init__: the conversion of a supplied argument was not found')
+    for c in sites:
+        r.instances += 1
+        text = unparse(c)
+        # through a helper of the module: look into it as well
+        q = model.resolve(c.func, init.module, init)
+        g = model.functions.get(q or '')
+        if g is not None and g.module.name == 'pane.classes':
+            text += ' ' + unparse(g.node)
+        uses = {'field converter': bool(re.search(r'\.converter\b|field_converters', text)),
+                'class handlers': bool(re.search(r'class_handlers|field_converters|custom=', text))}
+        r.sample({'conversion': unparse(c)[:80], 'consults': uses})
+        if all(uses.values()):
+            r.ok()
+        else:
+            r.fail(init.qualname, "a supplied argument is converted by the field's type alone", init.loc(c),
+                   "Cls(5) and Cls.from_data({'x': 5}) differ for a field declared with field(converter=...) or in a class with custom= "
+                   "handlers: the constructor ignores both")
+    return r
+
+
+# ---------------------------------------------------------------------------- C17: bindings of one base stay with that base's fields
+
+
+def rule_bindings_scoped_to_base(model: Model, rule_id: str = 'C17-R16') -> RuleResult:
+    """``class C(A[int], B)``: walking the MRO, the bindings of ``A[int]`` (T -> int) belong to the fields ``A[int]`` declares or
+    inherits.  Applied to every field collected so far they also rewrite the fields of ``B`` (which uses the same variable name T for
+    something unrelated) because ``B`` comes later in the MRO."""
+    r = RuleResult(rule_id, "in the MRO walk a base's type-variable bindings are applied only to the fields of that base's own ancestry", floor=1)
+    f = model.func('pane.classes._process')
+    r.analysed.add(f.qualname)
+    loops = [x for x in ast.walk(f.node) if isinstance(x, ast.For) and '__mro__' in unparse(x.iter) and isinstance(x.target, ast.Name)]
+    if not loops:
+        raise AnalysisError('_process: the walk over the MRO was not found')
+    for loop in loops:
+        base = loop.target.id
+        calls = [c for st in loop.body for c in ast.walk(st) if isinstance(c, ast.Call) and isinstance(c.func, ast.Attribute)
+                 and c.func.attr == 'replace_typevars']
+        for c in calls:
+            r.instances += 1
+            scoped = None
+            child: ast.AST = c
+            for anc in ancestors(c):
+                if anc is loop:
+                    break
+                tests: t.List[ast.AST] = []
+                if isinstance(anc, ast.IfExp) and child is anc.body:
+                    tests.append(anc.test)
+                if isinstance(anc, (ast.DictComp, ast.ListComp, ast.GeneratorExp, ast.SetComp)):
+                    tests += [i_ for g_ in anc.generators for i_ in g_.ifs]
+                if isinstance(anc, ast.If) and any(x is child for x in anc.body):
+                    tests.append(anc.test)
+                for t_ in tests:
+                    if any(isinstance(nm, ast.Name) and nm.id == base for nm in ast.walk(t_)):
+                        scoped = unparse(t_)[:80]
+                child = anc
+            # ... or applied to the base's own, already merged, field list only (getattr(base, PANE_INFO).specs / .fields)
+            dom = next((anc for anc in ancestors(c) if isinstance(anc, (ast.DictComp, ast.ListComp, ast.GeneratorExp))), None)
+            if scoped is None and dom is not None and re.search(rf'\b{base}\b', unparse(dom.generators[0].iter)):
+                scoped = f'iterates {unparse(dom.generators[0].iter)[:60]}'
+            r.sample({'substitution': unparse(c)[:60], 'restricted by': scoped})
+            if scoped:
+                r.ok()
+            else:
+                r.fail(f.qualname, f"`{unparse(c)[:50]}` is applied to every field collected so far", f.loc(c),
+                       "class C(A[int], B) with A and B generic in the same variable: the field of B is typed int as well (B comes later in "
+                       "the MRO, so its fields are already collected when A[int]'s bindings are applied)")
+    if r.instances == 0:
+        raise AnalysisError('_process: no type-variable substitution inside the MRO walk')
+    return r
+
+
+def rule_parameters_from_all_bases(model: Model, rule_id: str = 'C17-R17') -> RuleResult:
+    """``class D(A[T], B[U])``: the parameters D inherits are the free variables of *all* its bases.  ``getattr(cls, '__parameters__')``
+    finds the attribute of the first base in the MRO that has one, i.e. (T,) only: ``D[int, str]`` fails, U can never be bound."""
+    r = RuleResult(rule_id, "the inherited type parameters of a new class are gathered from every base", floor=1)
+    f = model.func('pane.classes.PaneBase.__init_subclass__')
+    r.analysed.add(f.qualname)
+    r.instances += 1
+    sup = next((x for x in ast.walk(f.node) if isinstance(x, ast.Call) and isinstance(x.func, ast.Attribute)
+                and x.func.attr == '__init_subclass__'), None)
+    if sup is None:
+        raise AnalysisError('__init_subclass__: super().__init_subclass__() not found')
+    before = [st for st in f.node.body if st.end_lineno is not None and st.end_lineno < sup.lineno]
+    over_bases = [unparse(x.iter)[:50] for st in before for x in ast.walk(st)
+                  if isinstance(x, (ast.For, ast.comprehension)) and re.search(r'__bases__|__orig_bases__|__mro__', unparse(x.iter))]
+    reads = [unparse(x)[:60] for st in before for x in ast.walk(st)
+             if (isinstance(x, ast.Call) and isinstance(x.func, ast.Name) and x.func.id == 'getattr' and len(x.args) >= 2
+                 and isinstance(x.args[1], ast.Constant) and x.args[1].value == '__parameters__')
+             or (isinstance(x, ast.Attribute) and x.attr == '__parameters__')]
+    r.sample({'reads of __parameters__ before typing runs': reads, 'iterates over the bases': over_bases})
+    if over_bases:
+        r.ok()
+    else:
+        r.fail(f.qualname, "the inherited parameters are read by attribute lookup on the new class only", f.loc(),
+               "attribute lookup stops at the first base that has __parameters__: class D(A[T], B[U]) gets (T,), D[int, str] raises "
+               "'Too many arguments' and U can never be bound")
+    return r
